@@ -12,6 +12,18 @@ PROPS = {
                 assumptions=['Hal::dma_alloc returns page-aligned, non-overlapping regions (hypotheses of C06_regions)',
                              'zeroing of DMA memory is the platform\'s duty; the check observes that the driver stores nothing but descriptor links before queue_set'],
                 trusted_extra=['drop order of VirtQueueLayout fields is transcribed (tied by the observed dealloc order)']),
+    'C01': dict(models=['Model/Queue.v'], design_ref='DESIGN.md 3.0, 3 C01',
+                assumptions=['caller contract of add: buffers non-empty and shorter than 2^32 (bufs_ok)', 'sequentially consistent memory'],
+                trusted_extra=['harness reference device walks chains through device addresses resolved by the ledger Hal']),
+    'C02': dict(models=['Model/Queue.v'], design_ref='DESIGN.md 3 C02',
+                assumptions=['memory is sequentially consistent: fences are events whose position is proved and compared; their hardware effect is trusted', 'source lint: fence(SeqCst) between ring-slot store and Release store of idx'],
+                level_note='PARTIAL with respect to weak memory: the theorems cover the order of stores and the completeness of every outstanding entry under sequential consistency. Trusted: Coq kernel, extraction, hand-written model, harness, the semantics of fence(SeqCst)/Release.'),
+    'C03': dict(models=['Model/Queue.v'], design_ref='DESIGN.md 3 C03',
+                assumptions=['caller contract of pop_used: the buffers passed are those submitted for the token (keys match)']),
+    'C04': dict(models=['Model/Queue.v'], design_ref='DESIGN.md 3 C04',
+                assumptions=['LedgerHal is the instrumented platform: every share bounced to a distinct device address, copy-in at share, copy-back at unshare']),
+    'C05': dict(models=['Model/Queue.v'], design_ref='DESIGN.md 3 C05',
+                assumptions=['batch between two checks is between 1 and 2^15 entries', 'co-simulation is sequentially consistent and single-threaded (device runs inside notify or inside the busy-wait hook)']),
 }
 HOOK_COMMITS = ['d6ca0bd', 'd91ee48']
 NOT_YET = {}
